@@ -13,8 +13,10 @@
    BOUNDARY-STABLE on the alphabet A, i.e. a concatenation of clusters of A segments back
    into exactly those clusters.  (Without it the property is not even well defined: typing
    "e" and then U+0301 merges two insertions into one cluster.)  Key decoding/matching
-   belongs to C09: the widgets' dispatch is an abstract operation alphabet here. *)
-From Vx Require Import base.Prelude base.ListX model.IdealEditor model.Editors proofs.EditorsProofs.
+   belongs to C09: the widgets' dispatch is an abstract operation alphabet here; the MODIFIER
+   MASK of a key event is modelled in front of it (model/EditorKeys.v, last section: which
+   masks type a key's Text, which keep a bound key bound). *)
+From Vx Require Import base.Prelude base.ListX model.IdealEditor model.Editors proofs.EditorsProofs model.EditorKeys proofs.EditorKeysProofs.
 
 (* ---------------------------------------------------------------- TextField *)
 
@@ -397,3 +399,66 @@ Proof.
   cbv zeta. repeat split; try (unfold derived_from; repeat constructor; cbn; tauto); try (vm_compute; reflexivity).
   eexists. vm_compute. reflexivity.
 Qed.
+
+(* ------------------------------------------------- modifier masks of key events *)
+
+(* model/EditorKeys.v puts the bits of vaxis.ModifierMask in front of the operation
+   alphabets: which event a key press with mask m is for each widget (the differential run
+   ships the real mask of every key event it sends).
+
+   textinput: a key with Text is typed unless Ctrl, Alt or Super is held — for EVERY mask
+   without those three bits (Shift, Hyper, Meta, Caps Lock, Num Lock and any further bit in
+   any combination) it is the event "typed text", which the refinement theorems above turn
+   into one insertion at the cursor; with one of the three bits it is a chord. *)
+Theorem C17_textinput_text_key_typed_iff_no_chord_bit :
+  forall m s, (Z.land m chord_bits = 0 -> ti_typed m s = EDefault false s) /\
+              (Z.land m chord_bits <> 0 -> ti_typed m s = EDefault true s).
+Proof. intros; split; [apply ti_typed_plain | apply ti_typed_chord]. Qed.
+Print Assumptions C17_textinput_text_key_typed_iff_no_chord_bit.
+
+(* setting further non-chord bits (lock state, Shift, Hyper, Meta) on ANY key event changes
+   neither the event nor the widget's step; and a typed key with such a mask and non-empty
+   Text is an insertion of the ideal editor *)
+Theorem C17_textinput_lock_bits_do_not_matter :
+  forall chars alnum st m x s, Z.land x chord_bits = 0 ->
+    ti_typed (Z.lor m x) s = ti_typed m s /\
+    ti_step chars alnum st (OEv (ti_typed (Z.lor m x) s)) = ti_step chars alnum st (OEv (ti_typed m s)) /\
+    (Z.land m chord_bits = 0 -> forall c tbl,
+       ti_iop (OEv (ti_typed (Z.lor m x) (c :: s))) tbl = IIns (match tbl with (_, cs) :: _ => cs | [] => [] end)).
+Proof.
+  intros. split; [apply ti_typed_lor; assumption | split; [apply ti_typed_step; assumption |]].
+  intros. rewrite ti_typed_lor by assumption. apply ti_typed_is_insertion; assumption.
+Qed.
+Print Assumptions C17_textinput_lock_bits_do_not_matter.
+
+(* bound keys: Num Lock never changes what a bound key does; Caps Lock does not change the
+   named keys (but un-binds the Ctrl/Alt+letter bindings of textinput: String() upper-cases
+   the key code); TextField keeps every binding under both lock bits and types a key with
+   Text whatever its mask *)
+Theorem C17_bound_keys_under_lock_bits :
+  (forall own m letter k, Z.land m retitle_bits = 0 -> Z.testbit m 6 = false \/ letter = false ->
+     ti_bound own m letter k = EKey k) /\
+  (forall own m k, Z.testbit m 6 = true -> ti_bound own m true k = EDefault (ti_mods_block (Z.lor own m)) []) /\
+  (forall m k, Z.land m retitle_bits = 0 -> tf_bound m k = TKey k) /\
+  (forall m s, tf_typed m s = TText s).
+Proof.
+  split; [exact ti_bound_keeps | split; [exact ti_bound_caps_letter | split; [exact tf_bound_keeps | reflexivity]]].
+Qed.
+Print Assumptions C17_bound_keys_under_lock_bits.
+
+(* the masks are not vacuous: Caps Lock, Num Lock, all five non-chord bits together type;
+   Ctrl + Caps Lock is a chord; Ctrl+a under Num Lock is Home, under Caps Lock it is not;
+   "ab", Left, then "C" with Caps Lock held: "aCb", cursor 2 *)
+Example C17_example_modifier_masks :
+  ti_typed ModCapsLock [67] = EDefault false [67] /\ ti_typed ModNumLock [67] = EDefault false [67] /\
+  ti_typed (ModShift + ModHyper + ModMeta + ModCapsLock + ModNumLock) [67] = EDefault false [67] /\
+  ti_typed (ModCtrl + ModCapsLock) [67] = EDefault true [67] /\
+  ti_bound ModCtrl ModNumLock true IkHome = EKey IkHome /\
+  ti_bound ModCtrl ModCapsLock true IkHome = EDefault true [] /\
+  ti_bound 0 ModCapsLock false IkHome = EKey IkHome /\
+  tf_bound (ModCapsLock + ModNumLock) TkHome = TKey TkHome /\ tf_bound ModShift TkHome = TIgnored /\
+  let chars := chars_tab demo_alpha in
+  let ab : list cluster := [([97], 1); ([98], 1)] in
+  ti_run chars demo_alnum (ti_new []) [OSetContent (cl_text ab); OEv (EKey IkLeft); OEv (ti_typed ModCapsLock [98])] =
+    Some (mkTi [([97], 1); ([98], 1); ([98], 1)] 2 0 [] []).
+Proof. cbv zeta. repeat split; vm_compute; reflexivity. Qed.
